@@ -4,6 +4,7 @@ package main
 
 import (
 	"fmt"
+	"go/token"
 	"go/types"
 	"sort"
 	"strings"
@@ -392,17 +393,96 @@ func c04r3(c *Ctx) {
 	if nread == 0 {
 		c.Anchor(rule, "RetrieveValue in "+FuncName(isPaused))
 	}
-	// (b) what IsPaused returns: false, or the Paused field decoded from the bytes read
+	// (b) what IsPaused returns: false, or the bit of the stored bytes that the encoder of the global flags writes for its
+	// field Paused — read directly (`(val[i] & mask) != 0`, possibly in a helper) or through the decoder's field of that bit
+	var wantBit *flagTriple
+	var encName string
+	for _, fn := range c.P.Funcs {
+		if !c.P.InPkgs(fn, "builtInFunctions") || fn.Signature.Recv() == nil || !writesFlagBytes(c.P, fn, 0) {
+			continue
+		}
+		ts, _, _ := toBytesTriples(c.P, fn)
+		for i := range ts {
+			if ts[i].field == "Paused" {
+				wantBit, encName = &ts[i], FuncName(fn)
+			}
+		}
+	}
+	if wantBit == nil {
+		c.Anchor(rule, "the encoder that writes the Paused flag into the stored bytes")
+		return
+	}
+	var valTerm string
+	for _, b := range isPaused.Blocks {
+		for _, in := range b.Instrs {
+			if ex, ok := in.(*ssa.Extract); ok && ex.Index == 0 {
+				if call, ok := ex.Tuple.(*ssa.Call); ok && InvokeName(call) == "AccountDataHandler.RetrieveValue" {
+					valTerm = e.Term(ex)
+				}
+			}
+		}
+	}
 	for _, r := range returnsOf(isPaused) {
 		rv := retval(r, 0)
 		t := e.Term(rv)
 		construct := fmt.Sprintf("return @b%d", r.Block().Index)
 		if k, ok := boolConst(rv); ok && !k {
 			c.Triv(rule, FuncName(isPaused), construct, c.P.InstrPos(r), "false")
-		} else if strings.HasSuffix(t, ".Paused") && strings.Contains(t, "GlobalMetadataFromBytes(") && strings.Contains(t, "RetrieveValue") || strings.HasSuffix(t, ".Paused") && strings.Contains(t, "GlobalMetadataFromBytes(IsPaused#") {
-			c.OK(rule, FuncName(isPaused), construct, c.P.InstrPos(r), "the Paused field decoded from the stored bytes: "+t)
+			continue
+		}
+		bi, bm, why := int64(-1), int64(-1), ""
+		if i, m, _, w := flagRead(e, rv, valTerm); w == "" {
+			bi, bm = i, m
 		} else {
-			c.FailX(Oblig{Rule: rule, Func: FuncName(isPaused), Construct: construct, Pos: c.P.InstrPos(r), Kind: "violation", Detail: "IsPaused returns " + t + ", not the Paused flag decoded from the stored value"})
+			why = w
+			// decoder field: field F of the object returned by a module decoder that was handed the stored bytes
+			if fv, ok := rv.(*ssa.Field); ok {
+				if dc, ok := fv.X.(*ssa.Call); ok && dc.Call.StaticCallee() != nil && len(dc.Call.Args) == 1 && e.Term(dc.Call.Args[0]) == valTerm {
+					ts, _, derr := fromBytesTriples(c.P, dc.Call.StaticCallee())
+					why = derr
+					for _, tr := range ts {
+						if tr.field == fieldName(fv.X.Type(), fv.Field) {
+							bi, bm, why = tr.idx, tr.mask, ""
+						}
+					}
+				}
+			}
+			if ld, ok := rv.(*ssa.UnOp); ok && ld.Op == token.MUL {
+				if fa, ok := ld.X.(*ssa.FieldAddr); ok {
+					dc, _ := fa.X.(*ssa.Call)
+					if al, isAl := fa.X.(*ssa.Alloc); isAl && al.Referrers() != nil {
+						// a decoder returning the struct by value: the local it is stored into, once
+						n := 0
+						for _, ref := range *al.Referrers() {
+							if st, ok := ref.(*ssa.Store); ok && st.Addr == ssa.Value(al) {
+								n++
+								dc, _ = st.Val.(*ssa.Call)
+							}
+						}
+						if n != 1 {
+							dc = nil
+						}
+					}
+					if dc != nil && dc.Call.StaticCallee() != nil && len(dc.Call.Args) == 1 && e.Term(dc.Call.Args[0]) == valTerm {
+						ts, _, derr := fromBytesTriples(c.P, dc.Call.StaticCallee())
+						why = derr
+						for _, tr := range ts {
+							if tr.field == fieldName(fa.X.Type(), fa.Field) {
+								bi, bm, why = tr.idx, tr.mask, ""
+							}
+						}
+					}
+				}
+			}
+		}
+		switch {
+		case bi == wantBit.idx && bm == wantBit.mask:
+			c.OK(rule, FuncName(isPaused), construct, c.P.InstrPos(r), fmt.Sprintf("byte[%d]&%#x of the stored bytes, the bit %s writes for Paused: %s", bi, bm, encName, t))
+		case bi >= 0:
+			c.FailX(Oblig{Rule: rule, Func: FuncName(isPaused), Construct: construct, Pos: c.P.InstrPos(r), Kind: "violation",
+				Detail: fmt.Sprintf("IsPaused returns byte[%d]&%#x of the stored bytes, but %s writes the Paused flag as byte[%d]&%#x", bi, bm, encName, wantBit.idx, wantBit.mask)})
+		default:
+			c.FailX(Oblig{Rule: rule, Func: FuncName(isPaused), Construct: construct, Pos: c.P.InstrPos(r), Kind: "violation", Detail: "IsPaused returns " + t + ", not the Paused flag decoded from the stored value (" + why + ")"})
 		}
 	}
 	// (c) the toggle: entry points registered as pause/unpause write the system account under ELRONDesdt‖Arguments[0]
